@@ -127,7 +127,246 @@ let varint_line (t : string list) : string =
 
 let varint_cases path = with_lines path (fun l -> print_endline (varint_line (split_ws l)))
 
+
+(* ---------- s-expressions ---------- *)
+type sx = Atom of string | List of sx list
+
+let parse_all (s : string) : sx list =
+  let n = String.length s in
+  let i = ref 0 in
+  let is_ws c = c = ' ' || c = '\t' || c = '\n' || c = '\r' in
+  let rec skip () = if !i < n && is_ws s.[!i] then (incr i; skip ()) in
+  let rec one () : sx =
+    skip ();
+    if s.[!i] = '(' then begin
+      incr i;
+      let items = ref [] in
+      let rec loop () =
+        skip ();
+        if !i >= n then failwith "unterminated list";
+        if s.[!i] = ')' then incr i
+        else (items := one () :: !items; loop ()) in
+      loop ();
+      List (List.rev !items)
+    end else begin
+      let st = !i in
+      while !i < n && not (is_ws s.[!i]) && s.[!i] <> '(' && s.[!i] <> ')' do incr i done;
+      Atom (String.sub s st (!i - st))
+    end in
+  let out = ref [] in
+  let rec top () = skip (); if !i < n then (out := one () :: !out; top ()) in
+  top ();
+  List.rev !out
+
+let atom = function Atom a -> a | List _ -> failwith "expected atom"
+let lst = function List l -> l | Atom a -> failwith ("expected list, got " ^ a)
+
+(* ---------- types, values, declarations ---------- *)
+let prim_of_string = function
+  | "u8" -> PU8 | "i8" -> PI8 | "u16" -> PU16 | "i16" -> PI16 | "u32" -> PU32 | "i32" -> PI32
+  | "u64" -> PU64 | "i64" -> PI64 | "u128" -> PU128 | "i128" -> PI128 | "f32" -> PF32 | "f64" -> PF64
+  | "bool" -> PBool | "unit" -> PUnit | "char" -> PChar | "str" -> PString | "dstr" -> PDedupString
+  | "dur" -> PDuration | "bytes" -> PBytes | "uuid" -> PUuid | "bigint" -> PBigInt
+  | "bigdec" -> PBigDecimal | "weekday" -> PWeekday | "month" -> PMonth | "fixedoffset" -> PFixedOffset
+  | "tz" -> PTz | "dt_utc" -> PDateTimeUtc | "ndate" -> PNaiveDate | "ntime" -> PNaiveTime
+  | "ndt" -> PNaiveDateTime | "dt_local" -> PDateTimeLocal | "dt_fixed" -> PDateTimeFixed | "dt_tz" -> PDateTimeTz
+  | p -> failwith ("bad prim " ^ p)
+
+let rec ty_of_sx (s : sx) : ty =
+  match s with
+  | Atom "phantom" -> TPhantom
+  | Atom a -> TPrim (prim_of_string a)
+  | List (Atom h :: r) ->
+      (match h, r with
+       | "opt", [t] -> TOption (ty_of_sx t)
+       | "res", [a; b] -> TResult (ty_of_sx a, ty_of_sx b)
+       | "tup", ts -> TTuple (List.map ty_of_sx ts)
+       | "vec", [t] -> TSeq (KVec, ty_of_sx t)
+       | "slice", [t] -> TSeq (KSlice, ty_of_sx t)
+       | "ll", [t] -> TSeq (KLinkedList, ty_of_sx t)
+       | "hset", [t] -> TSeq (KHashSet, ty_of_sx t)
+       | "bset", [t] -> TSeq (KBTreeSet, ty_of_sx t)
+       | "arr", [Atom n; t] -> TSeq (KArray (n_of_string n), ty_of_sx t)
+       | "hmap", [a; b] -> TMap (KHashMap, ty_of_sx a, ty_of_sx b)
+       | "bmap", [a; b] -> TMap (KBTreeMap, ty_of_sx a, ty_of_sx b)
+       | "box", [t] -> TWrap (KBox, ty_of_sx t)
+       | "rc", [t] -> TWrap (KRc, ty_of_sx t)
+       | "arc", [t] -> TWrap (KArc, ty_of_sx t)
+       | "ref", [t] -> TWrap (KRef, ty_of_sx t)
+       | "named", [Atom n] -> TNamed (n_of_string n)
+       | _ -> failwith ("bad type " ^ h))
+  | _ -> failwith "bad type"
+
+let rec val_of_sx (s : sx) : val0 =
+  match s with
+  | Atom a ->
+      let body = String.sub a 1 (String.length a - 1) in
+      (match a.[0] with
+       | 'n' -> VN (n_of_string body)
+       | 'z' -> VZ (z_of_string body)
+       | 'b' -> VB (unhex body)
+       | _ -> failwith ("bad value " ^ a))
+  | List (Atom t :: r) -> VNode (n_of_string t, List.map val_of_sx r)
+  | _ -> failwith "bad value"
+
+let name_of_hex h = unhex h
+
+let rmeta_of_sx (fields : sx) (steps : sx) : rmeta =
+  { r_fields = List.map (fun f ->
+        match lst f with
+        | [_; Atom nm; t; Atom o; tr] ->
+            { f_name = name_of_hex nm; f_ty = ty_of_sx t; f_opt = (o = "1");
+              f_transient = (if tr = Atom "-" then None else Some (val_of_sx tr)) }
+        | _ -> failwith "bad field") (lst fields);
+    r_steps = List.map (fun st ->
+        match lst st with
+        | [Atom "add"; Atom nm; d] -> SAdded (name_of_hex nm, val_of_sx d)
+        | [Atom "opt"; Atom nm] -> SMadeOptional (name_of_hex nm)
+        | [Atom "rem"; Atom nm] -> SRemoved (name_of_hex nm)
+        | [Atom "tra"; Atom nm] -> SMadeTransient (name_of_hex nm)
+        | _ -> failwith "bad step") (lst steps) }
+
+let env_of_sx (s : sx) : env =
+  match s with
+  | Atom _ -> []
+  | List (_ :: ds) ->
+      List.map (fun d ->
+          match lst d with
+          | [Atom "rec"; Atom nm; fs; ss] -> { d_name = name_of_hex nm; d_body = DRecord (rmeta_of_sx fs ss) }
+          | [Atom "enum"; Atom nm; Atom sorted; List vs] ->
+              { d_name = name_of_hex nm;
+                d_body = DEnum { e_sorted = (sorted = "1");
+                                 e_variants = List.map (fun v ->
+                                     match lst v with
+                                     | [_; Atom vn; Atom tr; fs; ss] ->
+                                         { v_name = name_of_hex vn; v_transient = (tr = "1"); v_rec = rmeta_of_sx fs ss }
+                                     | _ -> failwith "bad variant") vs } }
+          | _ -> failwith "bad decl") ds
+  | List [] -> []
+
+(* type-directed printer; `canonical` sorts the elements of sets and maps by their text *)
+let rec print_val (e : env) (canonical : bool) (t : ty) (v : val0) : string =
+  let join tag parts =
+    if parts = [] then "(" ^ string_of_n tag ^ ")"
+    else "(" ^ string_of_n tag ^ " " ^ String.concat " " parts ^ ")" in
+  let sorted xs = if canonical then List.sort compare xs else xs in
+  let raw v = print_raw v in
+  match t, v with
+  | _, VN n -> "n" ^ string_of_n n
+  | _, VZ z -> "z" ^ string_of_z z
+  | _, VB bs -> "b" ^ hex bs
+  | TOption t', VNode (tag, [x]) -> join tag [print_val e canonical t' x]
+  | TResult (r, er), VNode (tag, [x]) ->
+      join tag [print_val e canonical (if tag = N0 then er else r) x]
+  | TTuple ts, VNode (tag, vs) when List.length ts = List.length vs ->
+      join tag (List.map2 (print_val e canonical) ts vs)
+  | TSeq (k, t'), VNode (tag, vs) ->
+      let parts = List.map (print_val e canonical t') vs in
+      join tag (match k with KHashSet | KBTreeSet -> sorted parts | _ -> parts)
+  | TMap (_, kt, vt), VNode (tag, vs) ->
+      join tag (sorted (List.map (print_val e canonical (TTuple [kt; vt])) vs))
+  | TWrap (_, t'), _ -> print_val e canonical t' v
+  | TNamed n, VNode (tag, vs) ->
+      (match lookup_decl e n with
+       | Some { d_body = DRecord m; _ } when List.length m.r_fields = List.length vs ->
+           join tag (List.map2 (fun f x -> print_val e canonical f.f_ty x) m.r_fields vs)
+       | Some { d_body = DEnum m; _ } ->
+           (match List.nth_opt m.e_variants (int_of_n tag) with
+            | Some var when List.length var.v_rec.r_fields = List.length vs ->
+                join tag (List.map2 (fun f x -> print_val e canonical f.f_ty x) var.v_rec.r_fields vs)
+            | _ -> raw v)
+       | _ -> raw v)
+  | _, _ -> raw v
+and print_raw (v : val0) : string =
+  match v with
+  | VN n -> "n" ^ string_of_n n
+  | VZ z -> "z" ^ string_of_z z
+  | VB bs -> "b" ^ hex bs
+  | VNode (tag, []) -> "(" ^ string_of_n tag ^ ")"
+  | VNode (tag, vs) -> "(" ^ string_of_n tag ^ " " ^ String.concat " " (List.map print_raw vs) ^ ")"
+
+let rec nat_of_int i = if i <= 0 then O else S (nat_of_int (i - 1))
+
+let rec val_size (v : val0) : int =
+  match v with VNode (_, vs) -> List.fold_left (fun a x -> a + val_size x) 1 vs | _ -> 1
+
+let err_class (e : err) : string =
+  match e with
+  | EUnsupportedCharacter -> "UnsupportedCharacter"
+  | EFailedToDecodeCharacter -> "FailedToDecodeCharacter"
+  | ELengthTooLarge -> "LengthTooLarge"
+  | EInvalidTimeZone -> "InvalidTimeZone"
+  | EInputEnded -> "InputEnded"
+  | ECompressionFailure -> "CompressionFailure"
+  | EDecompressionFailure -> "DecompressionFailure"
+  | EFailedToDecodeString -> "FailedToDecodeString"
+  | EInvalidStringId id -> "InvalidStringId(" ^ string_of_z id ^ ")"
+  | EDeserializationFailure -> "DeserializationFailure"
+  | EUnknownFieldRef n -> "UnknownFieldRef(" ^ hex n ^ ")"
+  | EInvalidConstructorName -> "InvalidConstructorName"
+  | ENonExistingChunk -> "NonExistingChunk"
+  | EFieldRemoved n -> "FieldRemoved(" ^ hex n ^ ")"
+  | EFieldMissing n -> "FieldMissing(" ^ hex n ^ ")"
+  | ENonOptionalNone n -> "NonOptionalNone(" ^ hex n ^ ")"
+  | EInvalidRefId id -> "InvalidRefId(" ^ string_of_n id ^ ")"
+  | EInvalidConstructorId (id, t) -> "InvalidConstructorId(" ^ string_of_n id ^ "," ^ hex t ^ ")"
+  | EDeTransientCtor (c, t) -> "DeTransientCtor(" ^ hex c ^ "," ^ hex t ^ ")"
+  | ESerTransientCtor (c, t) -> "SerTransientCtor(" ^ hex c ^ "," ^ hex t ^ ")"
+  | EIllTyped -> "IllTyped"
+
+let pkind_str = function
+  | POverflow -> "overflow" | PIndex -> "index" | PUnwrap -> "unwrap" | PUnreachable -> "unreachable"
+  | PAssert -> "assert" | PLibrary -> "library"
+
+let cur_env : env ref = ref []
+
+let enc_model (t : ty) (v : val0) : string * n list option =
+  let fuel = nat_of_int (64 + 2 * val_size v) in
+  match enc fuel !cur_env t v [] with
+  | Ok (b, _) -> ("ok " ^ hex b ^ " " ^ print_val !cur_env false t v, Some b)
+  | Err e -> ("err " ^ err_class e, None)
+  | Panic p -> ("panic " ^ pkind_str p, None)
+  | Fuel -> ("fuel", None)
+
+(* both layers on every case: A (lists) and B (cursor + region stack) must agree *)
+let dec_model ?(extra = 0) (t : ty) (bs : n list) : string =
+  let len = List.length bs in
+  let fuel = nat_of_int (64 + 2 * len + extra) in
+  let a = match decodeA fuel !cur_env t bs [] with
+    | Ok ((v, rest), _) -> "ok " ^ print_val !cur_env true t v ^ " " ^ string_of_int (List.length rest)
+    | Err e -> "err " ^ err_class e
+    | Panic p -> "panic " ^ pkind_str p
+    | Fuel -> "fuel" in
+  if len > 4096 then a else begin
+    let b = match decodeB fuel !cur_env t bs [] with
+      | Ok ((v, rest), _) -> "ok " ^ print_val !cur_env true t v ^ " " ^ string_of_n rest
+      | Err e -> "err " ^ err_class e
+      | Panic p -> "panic " ^ pkind_str p
+      | Fuel -> "fuel" in
+    if a = b then a else "LAYERS-DISAGREE A: " ^ a ^ " B: " ^ b
+  end
+
+let codec_line (l : string) : string =
+  let sp = try String.index l ' ' with Not_found -> String.length l in
+  let cmd = String.sub l 0 sp in
+  let rest = String.sub l sp (String.length l - sp) in
+  let sx = parse_all rest in
+  match cmd, sx with
+  | "E", [e] -> cur_env := env_of_sx e; "env"
+  | "enc", [t; v] -> fst (enc_model (ty_of_sx t) (val_of_sx v))
+  | "dec", [t; Atom h] -> dec_model (ty_of_sx t) (unhex h)
+  | "rt", [t; v; Atom sfx] ->
+      let t = ty_of_sx t in
+      let v = val_of_sx v in
+      (match enc_model t v with
+       | (l, None) -> l ^ " ; -"
+       | (l, Some b) -> l ^ " ; " ^ dec_model ~extra:(2 * val_size v) t (b @ unhex sfx))
+  | _ -> failwith ("bad codec case: " ^ l)
+
+let codec_cases path = with_lines path (fun l -> print_endline (codec_line (String.trim l)))
+
 let () =
   match Array.to_list Sys.argv with
   | _ :: "varint-cases" :: path :: _ -> varint_cases path
+  | _ :: "codec" :: path :: _ -> codec_cases path
   | _ -> prerr_endline "usage: driver <command> <file>"; exit 2
